@@ -71,12 +71,16 @@ def classify(task, rec, clauses):
     interrupted = bool(rec.get("interrupts"))
     had_failure = any(e["ev"] == "end" and not e["ok"] for e in rec["events"])
     first_l = min(l for l, _ in clauses)
+    first_is_machinery = all(c in MACHINERY_CLAUSES for l, c in clauses if l == first_l)
     for l, c in clauses:
         if c.startswith("offpremise_"):
             out.setdefault("offpremise", []).append(c)
             continue
         if c in MACHINERY_CLAUSES:
-            out.setdefault("machinery", []).append(c)
+            # a harness-level inconsistency is a machinery failure only if nothing else broke
+            # before it; after a real violation (e.g. a call started twice) the forced monitor
+            # state makes such clauses fail as a consequence
+            out.setdefault("machinery" if first_is_machinery else "consequence", []).append(c)
             continue
         p = CLAUSE_PROP.get(c)
         if p is None:
@@ -128,7 +132,10 @@ def gen_tasks(profile, count, seed, opcode_frac=0.15, nmax=8):
         prof = profile
         if profile == "mixed":
             prof = rng.choice(["plain", "plain", "fail", "fail", "retry"])
-        scn = S.random_scenario(rng, 2, nmax)
+        if prof == "interrupt":
+            scn = S.random_scenario(rng, 4, max(nmax, 12), p_lit=0.05, p_edge=rng.choice([0.1, 0.2, 0.4]))
+        else:
+            scn = S.random_scenario(rng, 2, nmax)
         kw = {}
         if prof == "fail":
             scn = S.with_fail_plan(scn, rng, 1, p=rng.choice([0.15, 0.3, 0.6]))
@@ -156,6 +163,10 @@ def gen_tasks(profile, count, seed, opcode_frac=0.15, nmax=8):
             else:
                 strat["interrupt"] = ["site", rng.randint(1, 12)]
             kw["maxerr"] = rng.choice([0, 1, None])
+            kw["sched"] = rng.choice(["random", "random", "default"])
+            kw["W"] = rng.randint(1, 4)
+            if strat["interrupt"][0] == "event":
+                strat["interrupt"][1] = rng.randint(1, max(1, ncalls // 2))
         if prof == "spawnfail":
             w = rng.randint(1, 4)
             kw["W"] = w
